@@ -31,7 +31,8 @@ End Counts.
 Lemma len_bases size : 0 <= size -> len (bases size) = size.
 Proof. intros H. unfold len, bases, arange. rewrite arange_from_length. lia. Qed.
 
-Definition wf_set (I : list iv) (size : Z) : Prop := forall i, In i I -> fst i < snd i /\ 0 <= fst i /\ snd i <= size.
+(* inside the contig; an interval may be empty (start = stop) *)
+Definition wf_set (I : list iv) (size : Z) : Prop := forall i, In i I -> 0 <= fst i /\ fst i <= snd i /\ snd i <= size.
 
 Lemma contingency_is_counts A B size : 0 <= size -> wf_set A size -> wf_set B size ->
   contingency_model A B size =
@@ -41,7 +42,7 @@ Lemma contingency_is_counts A B size : 0 <= size -> wf_set A size -> wf_set B si
         count_bases (fun x => negb (covered A x) && negb (covered B x)) size).
 Proof.
   intros Hs HA HB. unfold contingency_model.
-  rewrite (mask_is_positive_coverage A size Hs HA), (mask_is_positive_coverage B size Hs HB).
+  rewrite (mask_is_positive_coverage_gen A size Hs HA), (mask_is_positive_coverage_gen B size Hs HB).
   unfold mask_spec, count_bases. rewrite !zip_with_map2, !count_true_map. reflexivity.
 Qed.
 
@@ -72,17 +73,38 @@ Proof.
   - f_equal. lia.
   - rewrite IH by lia. f_equal. lia.
 Qed.
-Lemma unique_intersect_is_per_base A B size : 0 <= size -> wf_set B size ->
-  (forall a, In a A -> 0 <= fst a /\ snd a <= size) ->
-  unique_intersect_model A B size = Some (unique_intersect_spec A B).
+Lemma filter_filter {T} (p q : T -> bool) l : filter p (filter q l) = filter (fun x => q x && p x) l.
 Proof.
-  intros Hs HB HA. unfold unique_intersect_model. rewrite (mask_is_positive_coverage B size Hs HB).
-  unfold unique_intersect_spec. f_equal. apply filter_ext_in. intros a Ha. specialize (HA a Ha).
-  apply bool_eq_iff. rewrite !existsb_exists. split; intros [x [Hx Hc]]; exists x; split; try exact Hx.
-  - unfold span in Hx. apply In_arange_from in Hx.
-    unfold nthd, mask_spec, bases, arange in Hc. rewrite nth_map_arange_from in Hc by lia.
-    replace (0 + Z.of_nat (Z.to_nat x)) with x in Hc by lia. exact Hc.
-  - unfold span in Hx. apply In_arange_from in Hx.
-    unfold nthd, mask_spec, bases, arange. rewrite nth_map_arange_from by lia.
-    replace (0 + Z.of_nat (Z.to_nat x)) with x by lia. exact Hc.
+  induction l as [|a l IH]; [reflexivity|]. cbn [filter]. destruct (q a); cbn [filter andb]; [destruct (p a)|]; rewrite IH; reflexivity.
+Qed.
+(* unique_intersect: among the rows of A that have bases, exactly those sharing a base with B are kept (in order);
+   every returned row is a row of A.  Rows without bases follow npstructures (see Model) and are outside the property. *)
+Lemma unique_intersect_is_per_base A B size : 0 <= size -> wf_set B size -> wf_set A size ->
+  exists out, unique_intersect_model A B size = Some out
+    /\ filter (fun i => fst i <? snd i) out = unique_intersect_spec A B
+    /\ (forall o, In o out -> In o A).
+Proof.
+  intros Hs HB HA. unfold unique_intersect_model. rewrite (mask_is_positive_coverage_gen B size Hs HB).
+  eexists. split; [reflexivity|]. split; [|intros o Ho; apply filter_In in Ho; tauto].
+  rewrite filter_filter. unfold unique_intersect_spec. apply filter_ext_in. intros a Ha. specialize (HA a Ha).
+  unfold unique_keep. destruct (Z.eqb_spec (fst a) (snd a)) as [E|E].
+  - replace (fst a <? snd a) with false by (symmetry; apply Z.ltb_ge; lia). rewrite andb_false_r.
+    unfold span. replace (Z.to_nat (snd a - fst a)) with O by lia. reflexivity.
+  - replace (fst a <? snd a) with true by (symmetry; apply Z.ltb_lt; lia). rewrite andb_true_r.
+    apply bool_eq_iff. rewrite !existsb_exists. split; intros [x [Hx Hc]]; exists x; split; try exact Hx.
+    + unfold span in Hx. apply In_arange_from in Hx.
+      unfold nthd, mask_spec, bases, arange in Hc. rewrite nth_map_arange_from in Hc by lia.
+      replace (0 + Z.of_nat (Z.to_nat x)) with x in Hc by lia. exact Hc.
+    + unfold span in Hx. apply In_arange_from in Hx.
+      unfold nthd, mask_spec, bases, arange. rewrite nth_map_arange_from by lia.
+      replace (0 + Z.of_nat (Z.to_nat x)) with x by lia. exact Hc.
+Qed.
+(* the per-base reading "a row without bases shares no base, so it is not returned" is false of the library: *)
+Lemma unique_intersect_empty_row_refuted :
+  exists A B size, wf_set A size /\ wf_set B size /\ unique_intersect_model A B size <> Some (unique_intersect_spec A B).
+Proof.
+  exists [(4, 4)], [(3, 6)], 8. split; [|split].
+  - intros i [E|[]]. subst. simpl. lia.
+  - intros i [E|[]]. subst. simpl. lia.
+  - vm_compute. discriminate.
 Qed.
